@@ -20,7 +20,7 @@ type CB struct {
 type LRU struct {
 	Cap  int
 	E    []Entry
-	Log  []CB // removal callbacks in order
+	Log  []CB     // removal callbacks in order
 	Fifo []string // insertion order of live keys (oldest first), for the non-triviality rule
 	// LastEvictDiffers is set when the last eviction's victim differed from the FIFO victim.
 	EvictDiffered bool
